@@ -12,6 +12,7 @@ KINDS = ["ANY", "ONE", "NOTONE", "RANGE", "NOTRANGE", "RANGES", "STRING", "ISTRI
          "U8ANY", "U8ONE", "U8RANGE", "U8NOTONE", "UNSIGNED_RULE", "SIGNED_RULE", "MAXIMUM_RULE", "REP_ONE_MIN_MAX", "U8_ONE_BYTEWISE"]
 
 A_NONE, A_APPLY, A_APPLY0, A_VETO, A_VETO0, A_THROW, A_THROW_ALIEN = range(7)
+A_CHANGE_STATE, A_CHANGE_STATES, A_CHANGE_ACTION, A_CHANGE_ACTION_AND_STATE, A_CHANGE_CONTROL, A_ENABLE_ACTION, A_DISABLE_ACTION = range(7, 14)
 
 GF_EXC, GF_ACT, GF_STATE, GF_LAZY_UNSAFE, GF_DISCARD, GF_CATCH_ALL, GF_TREE, GF_PRED_DUP = 1, 2, 4, 8, 16, 32, 64, 128
 
@@ -309,6 +310,16 @@ class G:
             return g.vis("enable< %s >" % tmplargs(), g.add("ENABLE", kids=(one_or_seq(ids),)))
         if k == "disable":
             return g.vis("disable< %s >" % tmplargs(), g.add("DISABLE", kids=(one_or_seq(ids),)))
+        if k == "state":
+            g.features |= GF_STATE
+            n = nums[0]
+            return g.vis("state< mon::st< %d >, %s >" % (n, ", ".join(cpps)), g.add("STATE", kids=(one_or_seq(ids),), a0=n))
+        if k == "action_b":
+            g.features |= GF_STATE
+            return g.vis("action< mon::actB, %s >" % ", ".join(cpps), g.add("ACTFAM", kids=(one_or_seq(ids),), a0=1))
+        if k == "control_b":
+            g.features |= GF_STATE
+            return g.vis("control< mon::ctlB, %s >" % ", ".join(cpps), g.add("CTLFAM", kids=(one_or_seq(ids),), a0=1))
         if k == "apply":
             g.features |= GF_ACT
             return g.vis("apply< %s >" % ", ".join("mon::cls< %d >" % i for i in nums), g.add("APPLY", ids=nums))
@@ -342,6 +353,8 @@ class G:
             ops += self.EXC_OPS + ["until", "list", "pad", "rep_min_max", "partial"]
         if p in ("act",):
             ops += self.ACT_OPS + ["until", "list", "rep", "if_then_else", "opt2", "star2"]
+        if p in ("state",):
+            ops += ["state", "state", "state2", "action_b", "control_b", "enable", "disable", "must", "tcrf", "list", "until", "opt2", "if_apply"]
         k = r.choice(ops)
         e = lambda: self.expr(depth - 1, avail)
         n2 = lambda lo, hi: r.randint(lo, hi)
@@ -401,6 +414,12 @@ class G:
         if k == "tc_any_rn":
             return self.op("try_catch_any_raise_nested", [e()], (7,))
         if k in ("enable", "disable"):
+            return self.op(k, [e() for _ in range(n2(1, 2))])
+        if k == "state":
+            return self.op("state", [e()], (r.randint(1, 3),))
+        if k == "state2":
+            return self.op("state", [e(), e()], (r.randint(1, 3),))
+        if k in ("action_b", "control_b"):
             return self.op(k, [e() for _ in range(n2(1, 2))])
         if k in ("apply", "apply0"):
             return self.op(k, [], tuple(r.randint(0, 5) for _ in range(n2(1, 2))))
@@ -525,10 +544,14 @@ def ctx_cells():
 
 # ---------------------------------------------------------------------- action kind tables
 def kinds_table(tu, rnd, variant, profile):
-    """variant 0: no actions; 1,2: void apply/apply0 mix; 3: void + veto; 4: void + veto + throwing"""
+    """variant 0: no actions; 1,2: void apply/apply0 mix; 3: void + veto; 4: void + veto + throwing;
+    5: void + state/action/control switches attached through the action's match() (C13)"""
     ks = []
     for (vid, cpp, custom) in tu.regs:
-        if variant == 0:
+        if variant == 5:
+            ks.append(rnd.choice([A_NONE, A_NONE, A_APPLY, A_APPLY, A_APPLY0, A_CHANGE_STATE, A_CHANGE_STATES, A_CHANGE_ACTION, A_CHANGE_ACTION_AND_STATE,
+                                  A_CHANGE_CONTROL, A_ENABLE_ACTION, A_DISABLE_ACTION]))
+        elif variant == 0:
             ks.append(A_NONE)
         elif variant in (1, 2):
             ks.append(rnd.choice([A_NONE, A_APPLY, A_APPLY0, A_APPLY]))
@@ -579,7 +602,7 @@ def chain_grammar(tu, gname, rnd, k, top_selected):
 
 
 # ---------------------------------------------------------------------- emission
-def emit_tu(tu, seed, variants=(0, 1, 2, 3, 4)):
+def emit_tu(tu, seed, variants=(0, 1, 2, 3, 4, 5)):
     rnd = random.Random(seed * 1000003 + 17)
     out = []
     out.append("// generated by gen/grammar_gen.py -- do not edit")
@@ -601,8 +624,12 @@ def emit_tu(tu, seed, variants=(0, 1, 2, 3, 4)):
     out.append("static const char* const CUSTOM[] = { %s };" % ", ".join(('"%s"' % cstr(c)) if c else "nullptr" for (_, _, c) in tu.regs))
     for v in variants:
         ks = kinds_table(tu, random.Random(seed * 31 + v), v, None)
+        # family B never switches the action family again (change_action< B > inside B would not compile)
+        rb = random.Random(seed * 37 + v)
+        kb = [(rb.choice([A_APPLY, A_APPLY0, A_NONE]) if k in (A_CHANGE_ACTION, A_CHANGE_ACTION_AND_STATE) else k) for k in ks]
         out.append("#if MON_VARIANT == %d" % v)
         out.append("static constexpr signed char MON_KINDS[] = { %s };" % ", ".join(str(k) for k in ks))
+        out.append("static constexpr signed char MON_KINDS_B[] = { %s };" % ", ".join(str(k) for k in kb))
         out.append("#endif")
     out.append("#ifndef MON_SELV")
     out.append("#define MON_SELV 0")
@@ -623,7 +650,7 @@ def emit_tu(tu, seed, variants=(0, 1, 2, 3, 4)):
     out.append("static const mon::grammar GS[] = {")
     for g in tu.grammars:
         salt = rnd.randrange(1 << 30)
-        out.append('  { "%s", "%s", "%s", "%s", "%s", %s::nodes, sizeof( %s::nodes ) / sizeof( %s::nodes[ 0 ] ), %d, "%s", %d, MON_KINDS, MON_SELS, %du, %du, &mon::run_entry< %s > },'
+        out.append('  { "%s", "%s", "%s", "%s", "%s", %s::nodes, sizeof( %s::nodes ) / sizeof( %s::nodes[ 0 ] ), %d, "%s", %d, MON_KINDS, MON_KINDS_B, MON_SELS, %du, %du, &mon::run_entry< %s > },'
                    % (g.gname, cstr(g.text()), g.profile, cstr(g.cell), g.prop, g.gname, g.gname, g.gname, g.top, cstr(g.alphabet), len(g.alphabet), salt, g.features, g.names[-1]))
     out.append("};")
     out.append("int main( int argc, char** argv ) {")
@@ -662,7 +689,7 @@ def make_tus(profile, seed, count, per_tu=10, prop=None):
                 gi += 1
             tus.append(("chain-%d-%d" % (seed, i // 7), emit_tu(tu, seed * 977 + i), len(tu.grammars)))
         return tus
-    default_prop = {"core": "C01", "conv": "C09", "exc": "C05", "act": "C04", "tree": "C12", "buf": "C07"}[profile]
+    default_prop = {"core": "C01", "conv": "C09", "exc": "C05", "act": "C04", "tree": "C12", "buf": "C07", "state": "C13"}[profile]
     gi = 0
     for i in range(0, count, per_tu):
         tu = TU()
